@@ -72,7 +72,8 @@ func EndBlocker(ctx sdk.Context, k keeper.Keeper) {
 						sdk.NewAttribute(types.AttributeKeyPriceDenom, rawDenom),
 					),
 				})
-				return
+				// no provider can be priced: the batch is skipped below, so that the queue entry is consumed
+				// and the context keeps its schedule
 			}
 
 			if len(providers) > 0 && len(providers) >= int(requestContext.ResponseThreshold) {
